@@ -29,6 +29,19 @@ def __npc(i_xxx):
     return npc
 
 
+def _slt(a, b):
+    """signed a < b as an unsigned comparison of the operands with their sign
+    bit flipped (does not depend on, nor modify, the operands' sign flags)"""
+    msb = cst(1 << (a.size - 1), a.size)
+    return oper(OP_LTU, a ^ msb, b ^ msb)
+
+
+def _sge(a, b):
+    "signed a >= b (see _slt)"
+    msb = cst(1 << (a.size - 1), a.size)
+    return oper(OP_GEU, a ^ msb, b ^ msb)
+
+
 def trap(ins, fmap, trapname):
     fmap.internals["trap"] = trapname
 
@@ -160,7 +173,7 @@ def i_XORI(ins, fmap):
 def i_SLT(ins, fmap):
     dst, rs1, rs2 = ins.operands
     if dst is not zero:
-        _t = rs1 < rs2
+        _t = _slt(rs1, rs2)
         fmap[dst] = fmap(tst(_t, cst(1, 32), cst(0, 32)))
 
 
@@ -176,7 +189,7 @@ def i_SLTU(ins, fmap):
 def i_SLTI(ins, fmap):
     dst, rs1, rs2 = ins.operands
     if dst is not zero:
-        _t = rs1 < rs2
+        _t = _slt(rs1, rs2)
         fmap[dst] = fmap(tst(_t, cst(1, 32), cst(0, 32)))
 
 
@@ -279,7 +292,7 @@ def i_BNE(ins, fmap):
 
 def i_BLT(ins, fmap):
     r1, r2, imm = ins.operands
-    fmap[pc] = fmap(tst(r1 < r2, pc + imm, pc + ins.length))
+    fmap[pc] = fmap(tst(_slt(r1, r2), pc + imm, pc + ins.length))
 
 
 def i_BLTU(ins, fmap):
@@ -289,7 +302,7 @@ def i_BLTU(ins, fmap):
 
 def i_BGE(ins, fmap):
     r1, r2, imm = ins.operands
-    fmap[pc] = fmap(tst(r1 >= r2, pc + imm, pc + ins.length))
+    fmap[pc] = fmap(tst(_sge(r1, r2), pc + imm, pc + ins.length))
 
 
 def i_BGEU(ins, fmap):
